@@ -40,6 +40,9 @@ func TestGovcReplayLedger(t *testing.T) {
 	if strings.Contains(in.Clause, "pruning") {
 		scenario = "commit-after-a-crash-before-pruning"
 	}
+	if strings.Contains(in.Clause, "object-keys-are-text") {
+		scenario = "rollback-over-a-storage-key-that-is-not-text"
+	}
 	if strings.Contains(in.Clause, "tx-meta") {
 		// the tx-meta clauses of the rollback contracts are replayed by the lookup scenario
 		scenario = "lookups-after-rollback-and-reexecution"
@@ -288,6 +291,33 @@ func TestGovcReplayLedger(t *testing.T) {
 		fmt.Printf("replay: p-1 overwritten, p-2 deleted, p-3 untouched: QueryByPrefix(\"p-\") = ok %v, %d values [%s] (expected exactly \"keep3\" and \"new1\")\n", ok, len(vals), strings.Join(got, " "))
 		if len(vals) != 2 || !((string(vals[0]) == "keep3" && string(vals[1]) == "new1") || (string(vals[0]) == "new1" && string(vals[1]) == "keep3")) {
 			fmt.Println("REPLAY-CONFIRMED a prefix query does not answer exactly the values of the live keys with the prefix")
+			return
+		}
+	case "rollback-over-a-storage-key-that-is-not-text":
+		// storage keys that are not valid UTF-8 (every EVM mapping slot is a 32-byte hash): block 1 writes v1, block 2
+		// overwrites it and writes a second such key; a rollback to block 1 must read v1 and must not find the second key
+		lg, dir := initLedger(t, "")
+		defer os.RemoveAll(dir)
+		k1, k2 := []byte{0xff, 0xfe, 0x01}, []byte{0xc3, 0x28, 0x02}
+		lg.PrepareBlock(nil, 1)
+		lg.SetBalance(a, big.NewInt(1))
+		lg.SetState(a, k1, []byte("v1"), nil)
+		accounts, r1 := lg.FlushDirtyData()
+		lg.PersistBlockData(genBlockData(1, accounts, r1))
+		lg.PrepareBlock(nil, 2)
+		lg.SetState(a, k1, []byte("v2"), nil)
+		lg.SetState(a, k2, []byte("w2"), nil)
+		accounts, r2 := lg.FlushDirtyData()
+		lg.PersistBlockData(genBlockData(2, accounts, r2))
+		if err := lg.Rollback(1); err != nil {
+			fmt.Println("REPLAY-NOT-CONFIRMED rollback refused:", err)
+			return
+		}
+		ok1, v1 := lg.GetState(a, k1)
+		ok2, v2 := lg.GetState(a, k2)
+		fmt.Printf("replay: after the rollback to block 1: key ff fe 01 -> (%v, %q) (expected true, \"v1\"); key c3 28 02 -> (%v, %q) (expected absent)\n", ok1, v1, ok2, v2)
+		if !ok1 || string(v1) != "v1" || ok2 {
+			fmt.Println("REPLAY-CONFIRMED a rollback does not restore storage keys that are not valid UTF-8: the journal lost them in its JSON round trip")
 			return
 		}
 	case "commit-after-a-crash-before-pruning":
